@@ -13,6 +13,8 @@ use serde_json::{json, Value};
 pub fn dispatch(cmd: &str, args: &Args) -> Option<i32> {
     Some(match cmd {
         "c08-edges" => edges(args),
+        "c08-probe" => probe(args),
+        "c08-diff" => diff(args),
         _ => return None,
     })
 }
@@ -164,5 +166,112 @@ pub fn edges(args: &Args) -> i32 {
     }
     out.line(&json!({"kind":"summary","part":"checkpoint-edges","edges":edge_list.len(),"runs":a.runs,
         "json":a.per_fmt[0],"messagepack":a.per_fmt[1],"bincode":a.per_fmt[2],"samples":a.samples}));
+    0
+}
+
+/// Run `a`, checkpoint in every format, run `b`: prints the reads.  (debug / replay helper)
+pub fn probe(args: &Args) -> i32 {
+    quiet_panics();
+    let a = args.req("a").replace("\\n", "\n");
+    let b = args.req("b").to_string();
+    for f in [vmh::Format::Json, vmh::Format::MessagePack, vmh::Format::Bincode] {
+        let (got, outcome) = run_segments(&[a.clone(), b.clone()], &[f]);
+        println!("{f:?}: {got:?} {outcome}");
+    }
+    0
+}
+
+/// Observation of a run given as segments: delivered text, outcome kind, recoverable errors.
+fn observe(segs: &[String], fmt: Option<vmh::Format>) -> (String, String, usize) {
+    let term: Vec<String> = vec![];
+    let files = crate::c09::fs_files();
+    let mut vm = vmh::new_vm(&files, &term);
+    let mut text = String::new();
+    let mut nrec = 0usize;
+    for (i, seg) in segs.iter().enumerate() {
+        if i > 0 {
+            if let Some(f) = fmt {
+                match crate::util::catch(|| vmh::checkpoint(&vm, f, &files, &term)) {
+                    Ok(Ok(v)) => vm = v,
+                    Ok(Err(e)) => return (text, format!("checkpoint failed: {e}"), nrec),
+                    Err((site, msg)) => return (text, format!("checkpoint panicked at {site}: {msg}"), nrec),
+                }
+            }
+        }
+        vmh::recov_start();
+        let r = vmh::run_src::<vmh::H>(&mut vm, "main.tex", seg, 50_000);
+        nrec += vmh::recov_take().len();
+        text.push_str(&vmh::render(&r.toks));
+        match r.outcome {
+            vmh::Outcome::Ok => {}
+            vmh::Outcome::Err { title, .. } => return (text, format!("error: {title}"), nrec),
+            vmh::Outcome::Panic { site, msg } => return (text, format!("panic at {site}: {msg}"), nrec),
+            vmh::Outcome::Budget => return (text, "budget".to_string(), nrec),
+        }
+    }
+    (text, "ok".to_string(), nrec)
+}
+
+/// Differential form of the stuttering obligation on arbitrary generated programs: P = A \n B is run
+/// (1) as two sources on one VM and (2) with a serialise/deserialise between them; every observation
+/// must agree.  Only cuts where A itself ends normally (pending input exhausted without error) count.
+pub fn diff(args: &Args) -> i32 {
+    quiet_panics();
+    let seed: u64 = args.num("seed", 1);
+    let n: usize = args.num("n", 500);
+    let pairs = crate::c09::gen_pairs(seed, n);
+    let fmts = [vmh::Format::Json, vmh::Format::MessagePack, vmh::Format::Bincode];
+    let nthreads = std::thread::available_parallelism().map(|n| n.get()).unwrap_or(4);
+    let next = std::sync::atomic::AtomicUsize::new(0);
+    let acc = std::sync::Mutex::new((0u64, 0u64, Vec::<Value>::new(), None::<Value>));
+    std::thread::scope(|sc| {
+        for _ in 0..nthreads {
+            std::thread::Builder::new().stack_size(256 << 20).spawn_scoped(sc, || {
+                let (mut runs, mut skipped) = (0u64, 0u64);
+                let mut viol = vec![];
+                let mut sample = None;
+                loop {
+                    let i = next.fetch_add(1, std::sync::atomic::Ordering::SeqCst);
+                    if i >= pairs.len() {
+                        break;
+                    }
+                    let (a, b) = &pairs[i];
+                    let segs = [format!("\\scrollmode {a}\n"), b.clone()];
+                    // A must end normally for the cut to be a checkpointable state
+                    let (_, oa, _) = observe(&segs[..1], None);
+                    if oa != "ok" {
+                        skipped += 1;
+                        continue;
+                    }
+                    let base = observe(&segs, None);
+                    let f = fmts[i % 3];
+                    let cut = observe(&segs, Some(f));
+                    runs += 1;
+                    if base != cut {
+                        if viol.len() < 50 {
+                            viol.push(json!({"kind":"violation","part":"checkpoint-diff","before":segs[0],"after":segs[1],
+                                "format":format!("{f:?}"),"uncut":{"text":base.0,"outcome":base.1,"recoverable":base.2},
+                                "checkpointed":{"text":cut.0,"outcome":cut.1,"recoverable":cut.2}}));
+                        }
+                    } else if sample.is_none() && base.2 > 0 && segs[1].contains("\\fi") {
+                        sample = Some(json!({"before":segs[0],"after":segs[1],"format":format!("{f:?}"),"text":base.0,"outcome":base.1}));
+                    }
+                }
+                let mut g = acc.lock().unwrap();
+                g.0 += runs;
+                g.1 += skipped;
+                g.2.extend(viol);
+                if g.3.is_none() {
+                    g.3 = sample;
+                }
+            }).unwrap();
+        }
+    });
+    let g = acc.into_inner().unwrap();
+    let mut out = Out::new(args.str("out"));
+    for v in g.2.iter().take(40) {
+        out.line(v);
+    }
+    out.line(&json!({"kind":"summary","part":"checkpoint-diff","pairs":pairs.len(),"runs":g.0,"skipped_A_does_not_end_normally":g.1,"sample":g.3}));
     0
 }
